@@ -416,8 +416,13 @@ fn serialize_record_type(rt: &RecordDataType) -> (String, String) {
             if let Some(max) = max {
                 str += &format!(" maximum=\"{max}\"");
             }
-            let value = min.unwrap_or(0.0).to_string();
-            (str, value)
+            // The value of the prototype element must lie inside of its own limits
+            let value = match (min, max) {
+                (Some(min), _) => *min,
+                (None, Some(max)) if *max < 0.0 => *max,
+                _ => 0.0,
+            };
+            (str, value.to_string())
         }
         RecordDataType::Double { min, max } => {
             let mut str = String::from("type=\"Float\"");
@@ -427,8 +432,13 @@ fn serialize_record_type(rt: &RecordDataType) -> (String, String) {
             if let Some(max) = max {
                 str += &format!(" maximum=\"{max}\"");
             }
-            let value = min.unwrap_or(0.0).to_string();
-            (str, value)
+            // The value of the prototype element must lie inside of its own limits
+            let value = match (min, max) {
+                (Some(min), _) => *min,
+                (None, Some(max)) if *max < 0.0 => *max,
+                _ => 0.0,
+            };
+            (str, value.to_string())
         }
         RecordDataType::ScaledInteger { min, max, scale, offset } => (
             format!(
